@@ -277,7 +277,7 @@ typedef struct {
 
 static int g_nthreads, g_barrier;
 static TH g_th[MAX_THREADS];
-static pthread_barrier_t g_bar;
+static pthread_barrier_t g_bar, g_end;
 static char g_dir[512];
 
 /* read-only credentials (loaded before any thread starts) */
@@ -1121,7 +1121,34 @@ static int op_tls13rec(TH *t, const OP *op, DR *d, FH *o)
 
 /* ------------------------------------------------------------------ op: complete handshake + application data */
 
+/* A server endpoint thread reports completion through a semaphore and then stays parked until the whole program is done
+ * (its accesses remain reportable by ThreadSanitizer for as long as it lives); at most MAX_PARKED are kept. */
+#include <semaphore.h>
+#define MAX_PARKED 160
+static pthread_mutex_t g_park_mu = PTHREAD_MUTEX_INITIALIZER;
+static pthread_cond_t g_park_cv = PTHREAD_COND_INITIALIZER;
+static int g_park_release, g_parked;
+
+static void park(void)
+{
+	pthread_mutex_lock(&g_park_mu);
+	if (g_parked < MAX_PARKED) {
+		g_parked++;
+		while (!g_park_release) pthread_cond_wait(&g_park_cv, &g_park_mu);
+	}
+	pthread_mutex_unlock(&g_park_mu);
+}
+
+static void unpark_all(void)
+{
+	pthread_mutex_lock(&g_park_mu);
+	g_park_release = 1;
+	pthread_cond_broadcast(&g_park_cv);
+	pthread_mutex_unlock(&g_park_mu);
+}
+
 typedef struct {
+	sem_t done;
 	int proto;          /* 0 tlcp, 1 tls12, 2 tls13 */
 	int mutual;
 	int fd;
@@ -1222,6 +1249,8 @@ static void *hs_server(void *arg)
 	if (r) tls_cleanup(conn);
 	tls_ctx_cleanup(ctx);
 	free(ctx); free(conn); free(buf);
+	sem_post(&s->done);     /* s belongs to the client from here on */
+	park();
 	return NULL;
 }
 
@@ -1240,7 +1269,9 @@ static int op_hs(TH *t, const OP *op, DR *d, FH *o)
 	s->eseed = mix2(mix2(t->seed, op->seed), 0x5e5e);
 	s->yseed = mix2(t->yseed, op->seed); s->yprob = t->yprob;
 	fh_init(&s->fold);
+	sem_init(&s->done, 0, 0);
 	if (pthread_create(&tid, NULL, hs_server, s) != 0) abort();
+	pthread_detach(tid);
 
 	suites[0] = proto_suite(proto);
 	r = tls_ctx_init(ctx, proto_id(proto), TLS_client_mode) == 1 && tls_ctx_set_cipher_suites(ctx, suites, 1) == 1
@@ -1273,7 +1304,8 @@ static int op_hs(TH *t, const OP *op, DR *d, FH *o)
 		}
 	}
 	shutdown(sv[0], SHUT_RDWR);
-	pthread_join(tid, NULL);
+	while (sem_wait(&s->done) != 0 && errno == EINTR) ;
+	sem_destroy(&s->done);
 	close(sv[0]);
 	fh_fin(&s->fold, sd);
 	f_buf(o, sd, 32);
@@ -1339,6 +1371,9 @@ static void *thread_main(void *arg)
 	TH *t = (TH *)arg;
 	if (g_barrier) pthread_barrier_wait(&g_bar);
 	run_list(t);
+	/* nobody exits before everybody is done: ThreadSanitizer can only report a conflict with an access whose stack it can
+	 * still restore, and the trace of a finished thread is recycled */
+	pthread_barrier_wait(&g_end);
 	return NULL;
 }
 
@@ -1509,12 +1544,14 @@ int main(int argc, char **argv)
 	}
 	if (conc) {
 		if (g_barrier) pthread_barrier_init(&g_bar, NULL, (unsigned)g_nthreads);
+		pthread_barrier_init(&g_end, NULL, (unsigned)g_nthreads);
 		for (i = 0; i < g_nthreads; i++)
 			if (pthread_create(&g_th[i].tid, NULL, thread_main, &g_th[i]) != 0) die("pthread_create");
 		for (i = 0; i < g_nthreads; i++) pthread_join(g_th[i].tid, NULL);
 	} else {
 		for (i = 0; i < g_nthreads; i++) run_list(&g_th[i]);
 	}
+	unpark_all();
 	write_results(argv[3]);
 	return 0;
 }
